@@ -41,7 +41,7 @@ def build_plans(world):
     read = world["read"]
     ops = gen.prologue_ops(read)
     if read["ep"] == "readDirs":
-        pd = "PARSING_DIRS=%s:%s" % (read.get("usr") or "", read.get("etc") or "")
+        pd = "PARSING_DIRS=%s:%s" % (gen.dirarg(read, read.get("usr")) or "", gen.dirarg(read, read.get("etc")) or "")
         ops.append(dict(gen.read_op(read, o=0), tag="r_dirs"))
         ops.append({"op": "dump", "k": 0, "ext": False, "tag": "d_dirs"})
         ops.append(dict(gen.read_op(read, o=1, cb={}), tag="r_dirs_cb"))
@@ -49,7 +49,7 @@ def build_plans(world):
         for slot, cb, tag in ((2, None, "config"), (3, {}, "config_cb")):
             ops.append({"op": "newOpts", "o": slot, "options": pd})
             op = {"op": "readConfig", "in": slot, "o": slot, "project": None, "usr_subdir": None, "name": read["name"], "suffix": read.get("suffix"),
-                  "delim": "=", "comment": "#", "tag": "r_" + tag}
+                  "delim": read["delim"], "comment": read["comment"], "tag": "r_" + tag}
             if cb is not None:
                 op["cb"] = cb
             ops.append(op)
@@ -62,7 +62,7 @@ def build_plans(world):
         ops.append({"op": "mergeHistory", "h": 0, "o": 4, "tag": "fold", "first_is_main": bool(model and model["main"])})
         ops.append({"op": "dump", "k": 4, "ext": False, "tag": "d_fold"})
         for n, p in enumerate(model["consulted"] if model else []):
-            ops.append({"op": "readFile", "o": 10 + n, "path": p, "delim": "=", "comment": "#", "tag": "single%d" % n})
+            ops.append({"op": "readFile", "o": 10 + n, "path": p, "delim": read["delim"], "comment": read["comment"], "tag": "single%d" % n})
             ops.append({"op": "dump", "k": 10 + n, "ext": False, "tag": "d_single%d" % n})
             ops.append({"op": "free", "k": 10 + n})
         for k in (0, 1, 2, 3, 4):
